@@ -1509,6 +1509,21 @@ def install(m):
         if isinstance(x, Tuple) and isinstance(y, Tuple):
             return zand(*[values_eq(m, p, q) for p, q in zip(x.fields, y.fields)])
         xs_str = isinstance(x, Ptr) or (isinstance(x, (VecObj, Array)))
+        if xs_str and getattr(m, 'x_memcmp_early_exit', False):
+            # C07: `==` on byte slices is a length test followed by a byte-wise, early-exit memcmp (the harness-supplied libc model)
+            xe, ye = elems_of(m, x), elems_of(m, y)
+            if (not xe or isinstance(xe[0], Int)) and (not ye or isinstance(ye[0], Int)):
+                if m.trace is not None:
+                    m.trace.append(('memcmp:len', len(xe) == len(ye)))
+                if len(xe) != len(ye):
+                    return False
+                for i, (p, q) in enumerate(zip(xe, ye)):
+                    same = m.ctx.branch(m.binop('Eq', p, q))
+                    if m.trace is not None:
+                        m.trace.append(('memcmp:byte', i, same))
+                    if not same:
+                        return False
+                return True
         if xs_str:
             xe, ye = elems_of(m, x), elems_of(m, y)
             if xe and not isinstance(xe[0], Int) or ye and not isinstance(ye[0], Int):
@@ -2557,6 +2572,21 @@ def install2(m):
             return Int(x.ty if c.method == 'abs' else 'u' + x.ty[1:], abs(x.v))
         raise Unsupported('abs of symbolic')
 
-    @reg('is_ascii_graphic_')
-    def _unused(m, a, c, rt):
-        raise Unsupported('unused')
+    @reg('read_volatile', 'ptr::read', 'read')
+    def _read_volatile(m, a, c, rt):
+        return copy_val(m.load(a[0]))
+
+    @reg('wrapping_neg')
+    def _wrapping_neg(m, a, c, rt):
+        x = a[0]
+        return Int(x.ty, -x.v)
+
+    @reg('bitxor', 'bitand', 'bitor')
+    def _bitops(m, a, c, rt):
+        x, y = deref(m, a[0]), deref(m, a[1])
+        if isinstance(x, Int):
+            return m.binop({'bitxor': 'BitXor', 'bitand': 'BitAnd', 'bitor': 'BitOr'}[c.method], x, y)
+        fn = m.resolve_local(c, a)
+        if fn is not None:
+            return m.run_body(fn, a)
+        raise Unsupported('%s on %r' % (c.method, x))
